@@ -283,6 +283,61 @@ class HelperConsumer(Consumer):
         self.sample(dict(history=hist), every=97)
 
 
+C13_HELPER_OPTS = [dict(nao=False, scheme='braces', policy=p) for p in ('keep', 'replace', 'ignore', 'unihex', 'fail')] + \
+                  [dict(nao=True, scheme='braces', policy='replace')]
+C13_HELPER_STRINGS = ['a\u00e9 \u0e18%', '\ue000x', 'plain {a} #']
+
+
+class HelperAsciiConsumer(Consumer):
+    """C13 on the module-level helper: whatever was called before, a call with policy replace / ignore / unihex returns
+    pure ASCII and a call with policy fail raises ValueError exactly when a character has no rule and is outside the
+    pass-through range (classification by the transcription of Encoder.tla)."""
+
+    def feed(self, rec):
+        from pylatexenc import latexencode
+        hist = rec['hist']
+        if not hist:
+            return
+        self.n += 1
+        if len(hist) >= 2:
+            self.nontrivial += 1
+        if hasattr(latexencode, '_u2l_obj_cache'):
+            latexencode._u2l_obj_cache.clear()
+        tab = table('defaults')
+        for k, o in enumerate(hist):
+            opt = dict(nao=o['nao'], scheme=o['scheme'], policy=o['policy'])
+            for s in C13_HELPER_STRINGS:
+                st, got = guarded(helper_call, opt, s)
+                self.counters['calls'] += 1
+                case = dict(history=hist, step=k + 1, s=s, options=opt)
+                if st != 'ok':
+                    self.violation('encoder-outcome', case, detail=dict(status=st, exc=repr(got)), sig=dict(clause='encoder-outcome'))
+                    return
+                status, val = got
+                exp = port_encode(s, tab, opt['scheme'], opt['policy'], opt['nao'])
+                if opt['policy'] == 'fail' and (exp is None) != (status == 'ValueError'):
+                    self.violation('fail-iff-unmatched', case, detail=dict(raised=(status == 'ValueError'), expected_raise=(exp is None)),
+                                   sig=dict(clause='fail-iff-unmatched'))
+                    return
+                if opt['policy'] in ('replace', 'ignore', 'unihex') and status == 'ok' and any(ord(c) > 127 for c in val):
+                    self.violation('non-ascii', case, detail=dict(encoded=val), sig=dict(clause='non-ascii'))
+                    return
+        self.sample(dict(history=hist), every=97)
+
+
+def run_helper_histories_c13(ctx):
+    quick = ctx.tier == 'quick'
+    opts = ', '.join('[nao |-> %s, scheme |-> "%s", policy |-> "%s"]' % ('TRUE' if o['nao'] else 'FALSE', o['scheme'], o['policy'])
+                     for o in C13_HELPER_OPTS)
+    text = HELPER_MC % dict(opts=opts)
+    job = dict(main='MC_EncHelper', mc=text, cfg=HELPER_CFG % dict(maxlen=3 if quick else 4, variant='intended', emit='TRUE'),
+               tlc_kw=dict(timeout=1200, workers=1))
+    m = common.run_dispatch(ctx, ('harness.c04_extra', 'HelperAsciiConsumer'), job,
+                            what='EncHelper: histories of module-level unicode_to_latex() calls (ASCII-only / fail-iff)', batch=20)
+    ctx.add_merged(m)
+    ctx.log('module-level helper histories: %d histories, %d calls' % (m['n'], m['counters'].get('calls', 0)))
+
+
 def run_helper_histories(ctx):
     quick = ctx.tier == 'quick'
     text = HELPER_MC % dict(opts=_opts_tla())
